@@ -305,6 +305,108 @@ Example C06_job_error_concrete :
     true [31] [10; 11; 12] [Some 11; None; None] = 3.
 Proof. vm_compute. repeat split; reflexivity. Qed.
 
+(* ---- the CONSUMER of the root's iterator (progress=True: utils.logging.Indicator) ----
+   _mpi_root_task is a generator, suspended at `yield result` between receiving a result and
+   answering the worker.  The theorems above are about a consumer that exhausts the iterator (every
+   caller in the library does, with and without progress bar).  [qstep ... k]: the consumer stops
+   asking after its k-th item (a wrapper that breaks once it has seen the expected number of
+   items, islice, zip behind a shorter iterable): for every task list, number of workers, rank set,
+   send mode, schedule and every k. *)
+
+(* the executable step used to replay the logs of such runs is sound *)
+Theorem C06_qstep_with_sound :
+  forall (T R : Type) (f : T -> R) allowed fb md k c (s s' : qst T R),
+  qstep_with f allowed fb md k c s = Some s' -> qstep f allowed fb md k s s'.
+Proof. exact @qstep_with_sound. Qed.
+Print Assumptions C06_qstep_with_sound.
+
+(* every such run is finite *)
+Theorem C06_consumer_terminates :
+  forall (T R : Type) (f : T -> R) allowed fb md k n (s s' : qst T R),
+  qsteps f allowed fb md k n s s' -> n + mu (qs s') <= mu (qs s).
+Proof. exact @qdispatch_terminates. Qed.
+Print Assumptions C06_consumer_terminates.
+
+(* a consumer that asks for more items than there are tasks never stops; its runs are exactly the
+   runs of the protocol (so all theorems above apply to it) *)
+Theorem C06_consumer_exhausts_is_protocol :
+  forall (T R : Type) (f : T -> R) allowed fb md k (tasks : list T) n,
+  length tasks < k ->
+  (forall s : qst T R, qreach f allowed fb md k (qinit tasks n) s ->
+                       qstop s = None /\ reach f allowed fb md (init tasks n) (qs s)) /\
+  (forall b : st T R, reach f allowed fb md (init tasks n) b -> qreach f allowed fb md k (qinit tasks n) (mkQ b None)).
+Proof. exact @consumer_exhausts_is_protocol. Qed.
+Print Assumptions C06_consumer_exhausts_is_protocol.
+
+(* once the consumer has stopped: the root sits in its loop and never enters the closing
+   collective, and the worker whose result was the k-th item waits in recv(source=0) with nothing
+   in flight to it - it never gets its end-of-queue sentinel *)
+Theorem C06_consumer_stop_blocks :
+  forall (T R : Type) (f : T -> R) allowed fb md k (tasks : list T) n (s : qst T R) who,
+  1 <= k -> qreach f allowed fb md k (qinit tasks n) s -> qstop s = Some who ->
+  (exists a, pc (qs s) = RLoop a) /\ length (got (qs s)) = k /\ k <= length tasks /\
+  (forall i, who = Some i ->
+     exists w, nth_error (ws (qs s)) i = Some w /\ inb w = [] /\ outb w = [] /\ fin w = false).
+Proof. exact @consumer_stop_blocks. Qed.
+Print Assumptions C06_consumer_stop_blocks.
+
+Theorem C06_consumer_stopped_root_frozen :
+  forall (T R : Type) (f : T -> R) allowed fb md k (s s' : qst T R) who,
+  qstep f allowed fb md k s s' -> qstop s = Some who ->
+  qstop s' = Some who /\ pc (qs s') = pc (qs s) /\ pend (qs s') = pend (qs s) /\ got (qs s') = got (qs s).
+Proof. exact @qstopped_frozen. Qed.
+Print Assumptions C06_consumer_stopped_root_frozen.
+
+(* ... every stopped state runs into one in which nothing can move (deadlock) ... *)
+Theorem C06_consumer_stop_gets_stuck :
+  forall (T R : Type) (f : T -> R) allowed fb md k (s : qst T R) who,
+  qstop s = Some who ->
+  exists s', qreach f allowed fb md k s s' /\ qstop s' = Some who /\ qquiet s' = true /\ qstuck f allowed fb md k s'.
+Proof. exact @consumer_stop_gets_stuck. Qed.
+Print Assumptions C06_consumer_stop_gets_stuck.
+
+(* ... and a consumer that stops after k <= |tasks| items - even after the LAST one, when it has
+   everything it expects - makes termination impossible: NO run ends with all ranks returned
+   (repaired algorithm, every rank set, also max_workers = 1) *)
+Theorem C06_consumer_stop_never_done :
+  forall (T R : Type) (f : T -> R) allowed md k (tasks : list T) n (s : qst T R),
+  1 <= k <= length tasks -> qreach f allowed true md k (qinit tasks n) s -> pc (qs s) <> RDone.
+Proof. exact @consumer_stop_never_done_repaired. Qed.
+Print Assumptions C06_consumer_stop_never_done.
+
+(* refutation of "a consumer may stop once it has all items": world size 3, tasks 10 20 30, stop
+   after 3 items.  The root's values are complete and correct, worker 2 has left its loop, worker 1
+   (it delivered the third item) is never answered, the root never enters the closing collective,
+   nothing can move - in both send modes *)
+Theorem C06_consumer_stop_after_last_item_refuted :
+  forall md, exists s : qst nat nat,
+    qreach c06_f (c06_allowed [0; 1; 2]) true md 3 (qinit [10; 20; 30] 2) s /\
+    qstuck c06_f (c06_allowed [0; 1; 2]) true md 3 s /\
+    qstop s = Some (Some 0) /\ pc (qs s) = RLoop 1 /\ pend (qs s) = [] /\
+    got (qs s) = [31; 61; 91] /\ got (qs s) = map c06_f [10; 20; 30] /\ ran (qs s) = [10; 20; 30] /\
+    ws (qs s) = [mkW [] [] false; mkW [] [] true].
+Proof. exact consumer_stop_after_last_item_refuted. Qed.
+Print Assumptions C06_consumer_stop_after_last_item_refuted.
+
+(* non-vacuity: the checker used by the harness accepts that run with the observation "only the
+   root came back" (code 0), rejects "every rank came back" (flag0), and accepts the run of a
+   consumer that asks for a fourth item - it is the complete protocol run, every rank returns *)
+Example C06_consumer_concrete :
+  c06_qdispatch_case false 2 [0; 1; 2] [10; 20; 30] 3
+    [QRun (CInitTask 0); QRun (CWTask 0); QRun (CInitTask 1); QRun (CWTask 1); QRun CInitDone;
+     QRun (CRecvMore 0); QRun (CWTask 0); QRun (CRecvLast 1); QRun (CWEoq 1); QStopRecv 0]
+    [31; 61; 91] [10; 20; 30] [true; false; false] = 0 /\
+  c06_qdispatch_case true 2 [0; 1; 2] [10; 20; 30] 3
+    [QRun (CInitTask 0); QRun (CWTask 0); QRun (CInitTask 1); QRun (CWTask 1); QRun CInitDone;
+     QRun (CRecvMore 0); QRun (CWTask 0); QRun (CRecvLast 1); QRun (CWEoq 1); QStopRecv 0]
+    [31; 61; 91] [10; 20; 30] [true; true; true] = 1 /\
+  c06_qdispatch_case false 2 [0; 1; 2] [10; 20; 30] 4
+    [QRun (CInitTask 0); QRun (CWTask 0); QRun (CInitTask 1); QRun (CWTask 1); QRun CInitDone;
+     QRun (CRecvMore 0); QRun (CWTask 0); QRun (CRecvLast 1); QRun (CWEoq 1); QRun (CRecvLast 0);
+     QRun (CWEoq 0); QRun CExit; QRun CBar]
+    [31; 61; 91] [10; 20; 30] [true; true; true] = 0.
+Proof. vm_compute. repeat split; reflexivity. Qed.
+
 (* ---- error paths: documented refusals under MPI (finding F23) ----
    a world of synchronising collectives; a rank = the list of calls it enters until it returns
    or raises (Model/MpiWrite.v, end) *)
